@@ -3,7 +3,8 @@
 patch=$1; prop=$2; shift 2
 cd /repo || exit 9
 git diff --quiet || { echo "/repo is dirty; refusing"; exit 9; }
-git apply "$patch" || { echo "patch does not apply"; exit 9; }
+git apply "$patch" 2>/dev/null || git apply -3 "$patch" 2>/dev/null || patch -p1 -s < "$patch" || { echo "patch does not apply"; git checkout -- . ; exit 9; }
+git reset -q
 trap 'git -C /repo checkout -- . ; git -C /repo clean -fdq' EXIT
 cd /verif && timeout ${TRY_TIMEOUT:-1500} ./check $prop "$@"
 echo "check-exit=$?"
